@@ -51,6 +51,14 @@ CLAIMED = {
         "Tie to the code: translator + vm_compute correspondence against Multi_Range_Potential_Form and potable [Pair] definitions. The statement without the distinct-key hypothesis is refuted in Coq (known finding C08-dupkey).",
    note="Trusted: Coq kernel; tools/py2coq.py printing; floats abstracted by order-isomorphic integers (code only compares); stable-sort model of list.sort; harness generators. No axioms.",
    technique="Coq proof over translated (py2coq) decision procedures + vm_compute correspondence", ref="DESIGN.md section 4 C08"),
+ 'C09': dict(
+   text="Coq theorems: (syntax) over model/DefnSyntax.v -- tokens, definition trees (ranges, form instances, nested modifiers), printer and recursive-descent parser -- every tree is what its printed tokens parse to (c09_parse_print) and a token list parses to at most the one tree that prints to it (c09_parse_sound), for every nesting depth (mutual induction, explicit fuel bound); "
+        "(modifiers) sum / product / pow of any number of argument potentials, each an expression of any nesting depth, are the pointwise left-to-right sum / product / power, trans(f, as.constant X) is f(r+X) (c09_sum, c09_product, c09_pow, c09_trans: reduce over the regenerated closures = built callable of the left-nested expression, with C07's value theorem); "
+        "(formulas) the j-th [Potential-Form] denotes its own formula over the forms before it with positional binding and call-by-value calls (c09_form_meaning, c09_binding) and the implementation's evaluation over the shared mutable symbol tables yields exactly that (c09_forms_evaluate_to_meaning, from C12). "
+        "Whitespace, continuation lines, '=' vs ':' and entry order live below the token level (pyparsing / configparser lexing): compared on every generated spelling, not modelled (partial). "
+        "Tie: exact bodies of the grammar, _descend_tree, the reducing modifiers (+ regenerated closures, symbol-table code of C12); parse trees of generated and malformed token lists in arbitrary spellings vs ConfigParser's tuple chains; n-ary nested modifiers in [Pair] / [EAM-Embed] / [EAM-Density] (plain and A->B) interval-certified; formulas over + - * / ^ if(), calls, as.polynomial, pymath.* vs the evaluator model by vm_compute.",
+   note="Trusted: Coq kernel; hand-written syntax model tied by AST assertions + parse-tree comparison; lexing by generation; cexprtk operator semantics and pymath = math module assumed; Reals axioms + classic + funext for the modifier theorems (syntax and formula theorems axiom-free); primitive axioms via interval in the correspondence only.",
+   technique="Coq proof (parser/printer round trip by mutual induction; combinator denotation; evaluator purity) + vm_compute and interval-certified correspondence", ref="DESIGN.md section 4 C09"),
  'C10': dict(
    text="Coq theorems over model/Spline.v with the 6x6 (Exp_Spline) and 10x10 (Buck4_Spline) systems translated entry by entry from the np.array literals: for EVERY solution of the system the exponential spline exp(P5(r))+C takes the value, first and second derivative of the two Spline_Points at detach and attach, "
         "including when non-positive values are shifted (c10_exp_join); the buck4 spline's fifth-order piece matches the start potential at detach, is stationary at r_min, meets the third-order piece there with equal value, slope and curvature, which matches the end potential at attach (c10_buck4_join); "
